@@ -111,9 +111,20 @@ def checkWith {σ : Type} (m0 : σ) (mstep : σ → Ev → Option σ) (sc : Driv
   let mut dq : List (Nat × List Nat) := []
   let mut dreads : List (Nat × Nat × Nat) := []
   let mut lastPeer : Option (Nat × Option Nat) := none    -- the peer action whose result comes next: send n / steal
+  -- "? idle": the harness states that nothing can be ready at the next PollOne (C03: a timeout then, not success)
+  let mut idleNext := false
   for ln in sc.lines do
     i := i + 1
+    if ln.kind == '?' && ln.toks == ["idle"] then idleNext := true
     if ln.kind == '<' then
+      match ln.toks with
+      | "ret" :: r :: e :: _ =>
+        if idleNext && r.startsWith "n=" then
+          idleNext := false
+          if e != "err=timeout" then
+            let d := s!"key=loop.poll-nothing-ready-reported-success event=[{ln.raw}] PollOne did not report a timeout although nothing was ready (no handler ran, no operation had been made completable)"
+            if res.specFail.isNone then res := { res with specFail := some (i, d) } else res := { res with more := res.more ++ [d] }
+      | _ => pure ()
       match ln.toks with
       | "call" :: "peer" :: k :: "send" :: n :: _ => lastPeer := (nat? k).bind fun k => (nat? n).map fun n => (k, some n)
       | "call" :: "peer" :: k :: "steal" :: _ => lastPeer := (nat? k).map fun k => (k, none)
